@@ -263,10 +263,18 @@ def run(ck):
         "the publications; for SpookyHash V2 and the mixing functions of all four it rests on transcription, "
         "published vectors and the independent C references"]
     ck.cov["partial"] = [
-        "spooky_long_eq_published: no second formulation of the long path exists to prove against; only the "
-        "short-path tail (switch = zero-padded load) is proved",
+        "spooky_eq_published (full statement, in a comment of Props/C16.lean) is proved only as "
+        "spooky_eq_published_partial: dispatch at 192 bytes, Short = its zero-padded formulation, long path = "
+        "block loop + End on the zero-padded last block with the length byte; that the transcribed "
+        "ShortMix/ShortEnd/Mix/EndPartial are the published ones rests on transcription, 64 published "
+        "TestResults vectors (short path only) and the independent C reference (both paths)",
+        "siphash24_eq_paper, hash_lookup3_eq_hashlittle2, xxh32_eq_spec are full equalities with Lean "
+        "transcriptions of the publications' block/tail/padding structure, but SipRound, mix/final, the XXH32 "
+        "round/avalanche and all constants are shared between model and spec (transcription; pinned by the "
+        "published vectors and the C references)",
         "purity and boundedness of the C code itself (no read outside [data,data+len), independence of "
-        "address/alignment/surroundings) are observed by the guard-page/ASan run, not proved",
+        "address/alignment/surroundings) are observed by the guard-page/ASan run at 32 placements, not proved; "
+        "left-edge ASan poisoning is exact only for 8-aligned starts (L0/L8 and the matching R placements)",
         "cross-endian clause not exercisable on this host"]
 
     stats = os.path.join(ck.bdir, "ncalls.%d" % os.getpid())
